@@ -105,7 +105,7 @@ class C14(object):
     def gen(self, rs, ctx):
         rnd = random.Random(rs)
         scen = rnd.choice(["roundtrip", "roundtrip", "sort", "overlaps", "overlaps", "kernel"])
-        wide = ctx.tier == "thorough" and rnd.random() < 0.03
+        wide = rnd.random() < (0.03 if ctx.tier == "thorough" else 0.004)
         ns, nf = rnd.choice([1, 2, 3, 5, 8, 13, 24]), rnd.choice([1, 2, 4, 7, 16, 33])
         if wide:
             ns, nf = rnd.choice([(2, 65534), (3, 40000), (65534, 2)])
@@ -285,6 +285,7 @@ class C14(object):
                 lin = sf.overlaps_linear(nnzmax=rnd.choice([4, 16, 4096]))
                 mat = sf.overlaps_matrix(npkmax=rnd.choice([2, 4, 256]))
                 kept = []
+                offs = {}
                 ncalls = rnd.choice([2, 3, 5])
                 prev = None
                 for k in range(ncalls):
@@ -292,14 +293,23 @@ class C14(object):
                     a, b = (max(1, ns2 // 2), max(1, nf2 // 2)) if shrink else (ns2, nf2)
                     r1, c1, l1, n1 = labelled_frame(rnd, g, a, b)
                     r2, c2, l2, n2 = labelled_frame(rnd, g, a, b, base=(r1, c1))
+                    # the frames may sit anywhere in an image of up to 65535 x 65535 pixels: around the middle row/column
+                    # (where a 16 bit coordinate changes sign if taken as signed) or at the far end
+                    roff = rnd.choice([0, 0, 0, 32768 - (a + 1) // 2, 32767, 65534 - a - 60])
+                    coff = rnd.choice([0, 0, 0, 32768 - (b + 1) // 2, 65534 - b])
+                    if roff < 0 or coff < 0 or roff + a + 60 > 65534 or coff + b > 65534:   # sparse_frame accepts shapes and coordinates below 65535
+                        roff = coff = 0
+                    r1, r2 = (r1 + roff).astype(np.uint16), (r2 + roff).astype(np.uint16)
+                    c1, c2 = (c1 + coff).astype(np.uint16), (c2 + coff).astype(np.uint16)
+                    offs["%d/%d" % (1 if roff else 0, 1 if coff else 0)] = offs.get("%d/%d" % (1 if roff else 0, 1 if coff else 0), 0) + 1
                     if rnd.random() < 0.15:
                         r2 = (r2 + 50).astype(np.uint16)  # disjoint
                     want = pair_counter(r1, c1, l1, r2, c2, l2)
                     nl, rcl = lin(r1, c1, l1, n1, r2, c2, l2, n2)
                     nm, rcm = mat(r1, c1, l1, n1, r2, c2, l2, n2)
-                    f1 = sf.sparse_frame(r1, c1, (a + 60, b), pixels={"lab": l1})
+                    f1 = sf.sparse_frame(r1, c1, (roff + a + 60, coff + b), pixels={"lab": l1})
                     f1.meta["lab"] = {"nlabel": n1}
-                    f2 = sf.sparse_frame(r2, c2, (a + 60, b), pixels={"lab": l2})
+                    f2 = sf.sparse_frame(r2, c2, (roff + a + 60, coff + b), pixels={"lab": l2})
                     f2.meta["lab"] = {"nlabel": n2}
                     coo = sf.overlaps(f1, "lab", f2, "lab") if len(want) else None
                     kept.append((want, nl, rcl, nm, None if rcm is None else np.array(rcm), coo))
@@ -333,6 +343,8 @@ class C14(object):
                 for k in ("steps", "switches", "teams", "conflicts", "parallel_runs"):
                     meas[k] += mm[k]
         meas["scenario"] = {scen: 1}
+        if scen == "overlaps":
+            meas["overlap_frames_offset(row/col)"] = offs
         meas["np_empty_garbage_buffers"] = self.proxy.count
         dig = enginea.sha([st["digest"] for st in sts], digs)
         return {"digest": dig, "sig": "%s/%s/%s/%s/%s" % (scen, desc["wseed"], ns, nf, cfg["team"]),
